@@ -2,6 +2,7 @@
 with which bounds. Only bounds that ran clean on the unchanged tree are listed."""
 
 W = {"workers": 14}
+LIT = "mvdan.cc/garble/internal/literals"
 
 import gen
 
@@ -22,6 +23,30 @@ CHECKS = {
             {"harness": "H_C20_garbleflag_positive", "reach": ["rx"], "bound": "5 garble flags x {-,--} x {bare, =value of 0..2 symbolic bytes}, through the real regexp engine"},
         ],
         "outside": ["-args", "-C ordering", "what the go command does with the arguments", "toolexecCmd's assembly of the nested go command (I/O bound)", "cmdgoQuotedSplit/Join"],
+    },
+    "C05": {
+        "level": "model_checking",
+        "level_text": "bounded symbolic model checking of the real literal generators (internal/literals): every generator is run on symbolic data bytes, symbolic key values and symbolic random draws; the emitted go/ast tree is evaluated by a harness-side evaluator (symxeval, executed by the same engine) and the solver shows the result cannot differ from the original bytes. Composition is by lemmas: L1/L2 prove the contracts of byteLitWithExtKey and dataToByteSliceWithExtKeys, which the obfuscator harnesses then assume (stubs); L3-L7 prove each obfuscator's contract, which the wrapper harnesses (L8) assume; L9 proves the proxy dispatcher's contract",
+        "level_note": "trusted: gosx encoder (witnesses replayed natively), z3 5.1 with cvc5 as fallback, the symxeval evaluator as the semantics of the emitted Go subset (it also enforces constant-fit, type-match and distinct-case compile rules), the written induction argument that glues swap steps; bounds per harness are listed in the evidence (sizes, draw bounds); Float32 draws explored at their two extremes only",
+        "claim": "every emitted decode tree evaluates to the bytes the generator was given, within the listed sizes and draw bounds",
+        "opts": dict(W, second="cvc5"),
+        "runs": [
+            {"harness": "H_C05_L1_byteLit", "pkg": LIT, "reach": ["generated"], "bound": "1..2 keys x 4 widths, all probabilities, all operators and shifts"},
+            {"harness": "H_C05_L2_extKeySlice", "pkg": LIT, "reach": ["generated"], "bound_quick": "n in {1,2,8}; 2 key operations (count draw bounded); key widths {8,64}", "bound_thorough": "n in {1,2,3,4,8,16}; 2..3 operations"},
+            {"harness": "H_C05_L3_simple", "pkg": LIT, "stubbed": True, "reach": ["generated"], "bound_quick": "n in {1,8}", "bound_thorough": "n in {1,2,8,64}"},
+            {"harness": "H_C05_L4a_swap_full", "pkg": LIT, "stubbed": True, "reach": ["generated"], "bound_quick": "n in {1,2} (all swap counts)", "bound_thorough": "n in {1,2,3}"},
+            {"harness": "H_C05_L4b_swap_steps", "pkg": LIT, "stubbed": True, "reach": ["generated"], "bound_quick": "n=8, 1 swap step from an arbitrary state", "bound_thorough": "n in {8,16,32}, 1..2 steps"},
+            {"harness": "H_C05_L4c_swapcount", "pkg": LIT, "reach": ["generated"], "bound": "n symbolic in [1,2055]"},
+            {"harness": "H_C05_L5_split", "pkg": LIT, "stubbed": True, "reach": ["generated"], "bound_quick": "n in {1,2,3}; symbolic permutation of case indexes; statement shuffles of 2 free, larger shuffles restricted to one order", "bound_thorough": "n in {1,2,3,4,8}"},
+            {"harness": "H_C05_L5b_chunks", "pkg": LIT, "reach": ["generated"], "bound_quick": "n in {5,9}", "bound_thorough": "n in {5,9,12,13}"},
+            {"harness": "H_C05_L6_shuffle", "pkg": LIT, "stubbed": True, "reach": ["generated"], "bound_quick": "n in {1,2,3}", "bound_thorough": "n in {1,2,3,4,8}"},
+            {"harness": "H_C05_L7_seed", "pkg": LIT, "stubbed": True, "reach": ["generated"], "bound_quick": "n in {1,2,8}", "bound_thorough": "n in {1,2,8,32}"},
+            {"harness": "H_C05_L8_string", "pkg": LIT, "stubbed": True, "reach": ["generated"], "bound_quick": "n=8; all junk lengths and split indexes; 2 keys of widths {8,16}", "bound_thorough": "n in {8,9,16}; all widths"},
+            {"harness": "H_C05_L8_bytes", "pkg": LIT, "stubbed": True, "reach": ["generated"], "bound": "[]byte / [n]byte x value / pointer; n=8 (thorough 8,9)"},
+            {"harness": "H_C05_L9_proxy", "pkg": LIT, "reach": ["generated"], "bound": "4 proxy structs, all pointer-ness and tree shapes, 2 hidden values in any struct; junk minimal, shuffles one order"},
+            {"harness": "H_C05_L10_pick", "pkg": LIT, "reach": ["generated"], "bound": "size symbolic in [0,4096]"},
+        ],
+        "outside": ["operation counts above the draw bound (4..11 key operations per slice)", "sizes above the listed ones (the swap induction is a written argument)", "that the Go compiler implements the emitted subset as symxeval does", "literals.Obfuscate's AST traversal (which expressions are rewritten)", "-ldflags=-X exclusion"],
     },
     "C06": {
         "level": "model_checking",
